@@ -116,7 +116,7 @@ func checkC04(w *World, r *Report) {
 	// the delivering goroutine is WaitGroup-paired
 	ro.goPaired(r, "cancel.delivery-paired", fn, false)
 	// HTTP: not found → 404
-	if h := w.FuncByName("server", "(*server).jobCancel"); h != nil {
+	if h := w.FuncByRole("server", "(*server).jobCancel", func(f *ssa.Function) bool { return callsNamed(f, "PipelineRunner).CancelJob") }); h != nil {
 		pr := w.EnumPaths(h, EnumOpts{})
 		ok404 := false
 		for _, p := range pr.Paths {
@@ -340,15 +340,86 @@ func blockReachesReturnWithoutGo(fn *ssa.Function, b *ssa.BasicBlock) bool {
 func checkCanceledVerdict(w *World, r *Report, ro *Roles) {
 	s := w.FuncByName("taskctl", "(*Scheduler).Schedule")
 	if s == nil {
-		r.Undecided("verdict.cancel-exit", "taskctl.Scheduler.Schedule", "-", "not found")
+		r.Undecided("verdict.acknowledged-cancel-is-reported", "taskctl.Scheduler.Schedule", "-", "not found")
 		return
 	}
 	res := w.EnumPaths(s, EnumOpts{MaxPaths: 20000})
 	r.Count("paths", len(res.Paths))
 	if res.Truncated {
-		r.Undecided("verdict.cancel-exit", FuncName(s), w.Pos(s.Pos()), "path cap exceeded")
+		r.Undecided("verdict.acknowledged-cancel-is-reported", FuncName(s), w.Pos(s.Pos()), "path cap exceeded")
 		return
 	}
+	// (A) the acknowledging path of the internal cancel records the request on the job, and the
+	// completion handler turns it into Canceled = true
+	recorded := map[string]bool{}
+	nDeliver := 0
+	if ro.CancelInt != nil {
+		cr := w.EnumPaths(ro.CancelInt, EnumOpts{})
+		for _, p := range cr.Paths {
+			delivers := false
+			for _, e := range p.Effects {
+				if e.Kind == "go" && w.deliversSchedulerCancel(e.In.(*ssa.Go)) {
+					delivers = true
+				}
+			}
+			if !delivers {
+				continue
+			}
+			nDeliver++
+			here := map[string]bool{}
+			for _, e := range p.Effects {
+				if e.Kind == "store" && strings.HasPrefix(e.Target, "recv.jobsByID[arg0].") && e.Val == "true" {
+					here[strings.TrimPrefix(e.Target, "recv.jobsByID[arg0].")] = true
+				}
+			}
+			if nDeliver == 1 {
+				recorded = here
+			} else {
+				for k := range recorded {
+					if !here[k] {
+						delete(recorded, k)
+					}
+				}
+			}
+		}
+	}
+	consumed := ""
+	if ro.Completed != nil {
+		pr := w.EnumPaths(ro.Completed, EnumOpts{})
+		for f := range recorded {
+			okF, seenTrue := true, false
+			for _, p := range pr.Paths {
+				completes, marks, fTrue := false, false, false
+				for _, e := range p.Effects {
+					if e.Kind == "store" && strings.HasSuffix(e.Target, ".Completed") && e.Val == "true" {
+						completes = true
+					}
+					if e.Kind == "store" && strings.HasSuffix(e.Target, ".Canceled") && e.Val == "true" {
+						marks = true
+					}
+				}
+				for _, l := range p.Lits {
+					if l.Atom.Op == "true" && strings.HasSuffix(l.Atom.L, "."+f) && l.Val {
+						fTrue = true
+					}
+				}
+				if completes && fTrue {
+					seenTrue = true
+					if !marks {
+						okF = false
+					}
+				}
+			}
+			if okF && seenTrue {
+				consumed = f
+			}
+		}
+	}
+	ruleA := consumed != "" && nDeliver > 0
+
+	// (B) the scheduler never returns a possibly-nil result after it took the cancel edge.
+	// The isDone == true edge does NOT discharge: a stage can be "done" because allow_failure
+	// downgraded the context.Canceled of a killed task.
 	nCancel := 0
 	bad := ""
 	badPos := w.Pos(s.Pos())
@@ -379,20 +450,16 @@ func checkCanceledVerdict(w *World, r *Report, ro *Roles) {
 				if a.Op == "==" && a.L == result && a.R == "nil" && !ev.Lit.Val {
 					discharged = "result != nil edge"
 				}
-				if a.Op == "true" && strings.Contains(a.L, ").isDone(") && ev.Lit.Val {
-					discharged = "isDone == true edge (nothing left unfinished: a plain result is right)"
-				}
 			}
 			if ev.Eff != nil && ev.Eff.Kind == "store" && ev.Eff.Target == result && ev.Eff.Val != "nil" {
 				discharged = "non-nil error stored to the result (" + ev.Eff.Val + ")"
 			}
 		}
 		if result != "nil" && !strings.HasPrefix(result, "local:") && discharged == "" {
-			// a constant non-nil error is returned directly
 			discharged = "returns " + result
 		}
 		if discharged == "" {
-			bad = "after taking the `cancelled == 1` edge the scheduler returns " + result + " which can be nil while stages are unfinished (path: " + p.LitString() + ")"
+			bad = "after taking the `cancelled == 1` edge the scheduler returns " + result + " which can be nil (path: " + p.LitString() + ")"
 			for _, ev := range p.Events[cancelAt:] {
 				if ev.Lit != nil {
 					badPos = w.InstrPos(ev.Lit.At)
@@ -401,9 +468,20 @@ func checkCanceledVerdict(w *World, r *Report, ro *Roles) {
 			}
 		}
 	}
-	r.Check(bad == "" && nCancel > 0, "verdict.cancel-exit", FuncName(s)+": result on the cancel exit", badPos,
-		fmt.Sprintf("on all %d return paths that took the `cancelled == 1` edge the result is discharged (non-nil stored, result != nil, or isDone)", nCancel),
-		bad+": a cancel that lands between two stages is acknowledged, the remaining stages never run, and the job is reported completed — not canceled — without error")
+	ruleB := bad == "" && nCancel > 0
+	key := "acknowledged cancel of a running job ⇒ the job ends reported canceled"
+	switch {
+	case ruleA:
+		r.OK("verdict.acknowledged-cancel-is-reported", key, w.Pos(ro.CancelInt.Pos()),
+			fmt.Sprintf("(A) every delivering path of %s stores %s = true on the job under the lock, and %s marks the job canceled on every completing path where it is set — whatever the scheduler returns (cancel between two stages, allow_failure task killed by the cancel, cancel racing with the last task's regular end)", FuncName(ro.CancelInt), consumed, FuncName(ro.Completed)))
+	case ruleB:
+		r.OK("verdict.acknowledged-cancel-is-reported", key, badPos,
+			fmt.Sprintf("(B) on all %d return paths of the scheduler that took the `cancelled == 1` edge a non-nil result is returned", nCancel))
+	default:
+		r.Viol("verdict.acknowledged-cancel-is-reported", key, badPos,
+			"neither (A) the acknowledging path of the internal cancel records the request on the job for the completion handler, nor (B) the scheduler returns a non-nil result on every path after the cancel edge: "+nameOr(bad, "no cancel edge found")+
+				" — an acknowledged cancel can end as a plain success: when it lands between two stages, when the task it kills has allow_failure (its context.Canceled is downgraded to 'done'), or when the last task ends regularly at the same moment")
+	}
 
 	// completion handler: Canceled iff errors.Is(err, context.Canceled); LastError := err
 	if ro.Completed != nil {
@@ -437,12 +515,18 @@ func checkCanceledVerdict(w *World, r *Report, ro *Roles) {
 					lastErr = true
 				}
 			}
-			if isCanceled == nil || *isCanceled != marks {
+			reqTrue := false
+			for _, l := range p.Lits {
+				if consumed != "" && l.Atom.Op == "true" && strings.HasSuffix(l.Atom.L, "."+consumed) && l.Val {
+					reqTrue = true
+				}
+			}
+			if isCanceled == nil || (*isCanceled || reqTrue) != marks {
 				okIff = false
 			}
 			okErr = okErr && lastErr
 		}
-		r.Check(okIff && n > 0, "verdict.canceled-iff-context-canceled", FuncName(ro.Completed)+": Canceled ⇔ errors.Is(err, context.Canceled)", w.Pos(ro.Completed.Pos()), "the job is reported canceled exactly when the scheduler's result is context.Canceled", "the completion handler does not set Canceled exactly when the scheduler's result is context.Canceled: a canceled job is reported as a plain success (or a successful one as canceled)")
+		r.Check(okIff && n > 0, "verdict.canceled-iff-context-canceled", FuncName(ro.Completed)+": Canceled ⇔ errors.Is(err, context.Canceled)", w.Pos(ro.Completed.Pos()), "the job is reported canceled exactly when the scheduler's result is context.Canceled or a cancel request was recorded on it", "the completion handler does not set Canceled exactly when the scheduler's result is context.Canceled: a canceled job is reported as a plain success (or a successful one as canceled)")
 		r.Check(okErr && n > 0, "verdict.last-error", FuncName(ro.Completed)+": LastError := scheduler result", w.Pos(ro.Completed.Pos()), "the scheduler's result is stored as the job's last error on every completing path", "the scheduler's result is not stored as the job's last error")
 	}
 }
